@@ -54,6 +54,8 @@ def gen_whole(rng, max_funcs=3):
             else:
                 funcs.append(core3gen.gen_func(rng, sig=sg, genv=genv))
         nd, dd = metagen.gen_sec(rng, max_defs=4) if rng.random() < 0.7 else ("-", "-")
+        # keywords in the function headers (declarations and definitions alike)
+        funcs = [core3gen.with_lead(rng, f) for f in funcs]
         # metadata attachments on instructions, referring to definitions of the metadata section (which is printed AFTER the functions)
         if dd != "-" and rng.random() < 0.7:
             ids = [int(e.split(":")[0]) for e in dd.split("|")]
@@ -152,6 +154,28 @@ def mutants(rng, text):
         # a local of the same spelling is not the global
         k, m = rng.choice(guses)
         out.append(("global-use-as-local", with_line(k, lines[k][:m.start()] + b"%" + m.group(0)[1:] + lines[k][m.end():])))
+    # keywords of function headers: one of each family, in the order of the grammar
+    KW = rb"(?:appending|available_externally|common|internal|linkonce_odr|linkonce|private|weak_odr|weak|external|extern_weak|dso_local|dso_preemptable|default|hidden|protected|dllexport|dllimport|[a-z0-9_]*cc|ptx_kernel|ptx_device|spir_func|spir_kernel|amdgpu_[a-z]+|aarch64_[a-z_]+)"
+    heads = [(k, m) for k in fn + dc for m in [re.match(rb"(define|declare) ((?:" + KW + rb" )+)", lines[k])] if m]
+    if heads:
+        k, m = rng.choice(heads)
+        kws = m.group(2).split()
+        pre, post = lines[k][:m.start(2)], lines[k][m.end(2):]
+        out.append(("header-keyword-doubled", with_line(k, pre + b" ".join(kws + [kws[-1]]) + b" " + post)))
+        if len(kws) >= 2:
+            sw = list(kws); i = rng.randrange(len(sw) - 1); sw[i], sw[i + 1] = sw[i + 1], sw[i]
+            out.append(("header-keywords-swapped", with_line(k, pre + b" ".join(sw) + b" " + post)))
+        out.append(("header-keyword-misspelt", with_line(k, pre + b" ".join(kws[:-1] + [kws[-1] + b"x"]) + b" " + post)))
+        out.append(("header-keyword-dropped", with_line(k, pre + b" ".join(kws[1:]) + (b" " if kws[1:] else b"") + post)))
+        other = rng.choice([b"internal", b"hidden", b"dso_local", b"fastcc", b"dllimport", b"weak_odr", b"protected", b"coldcc"])
+        out.append(("header-keyword-added-first", with_line(k, pre + b" ".join([other] + kws) + b" " + post)))
+        out.append(("header-keyword-added-last", with_line(k, pre + b" ".join(kws + [other]) + b" " + post)))
+    plain = [k for k in fn + dc if not re.match(rb"(define|declare) (?:" + KW + rb" )", lines[k])]
+    if plain:
+        k = rng.choice(plain)
+        m = re.match(rb"(define|declare) ", lines[k])
+        for kw in rng.sample([b"internal", b"hidden", b"dso_local", b"fastcc", b"dllimport", b"extern_weak", b"amdgpu_kernel", b"linkonce_odr"], 2):
+            out.append(("header-keyword-added", with_line(k, lines[k][:m.end()] + kw + b" " + lines[k][m.end():])))
     # metadata attachments of instructions: the IDs they name are definitions of the metadata section
     atts = [(k, m) for k in body for m in re.finditer(rb', !(?:[-a-zA-Z$._0-9\\]+) !(\d+)', lines[k]) if lines[k][:m.start()].count(b'"') % 2 == 0]
     if atts:
